@@ -10,6 +10,19 @@ theorem mergeGroupsZ_toG (a b : GroupZ K) : (mergeGroupsZ a b).toG = mergeGroups
   simp only [mergeGroupsZ, mergeGroups, GroupZ.toG, List.map_append, List.map_map]
   rfl
 
+theorem disjointZ_succ_none (fuel : Nat) (gs : List (GroupZ K)) (h : firstPair (gs.map GroupZ.toG) = none) :
+    disjointZ (fuel + 1) gs = gs := by
+  unfold disjointZ; simp only [h]
+
+/-- the step of `disjointZ` under the recognised constants of the current source (keep m, append n, recompute m, pop n) -/
+theorem disjointZ_succ_some (fuel : Nat) (gs : List (GroupZ K)) (m k : Nat) (hm : m < gs.length) (hk : k < gs.length)
+    (h : firstPair (gs.map GroupZ.toG) = some (m, k)) :
+    disjointZ (fuel + 1) gs = disjointZ fuel ((gs.set m (mergeGroupsZ gs[m] gs[k])).eraseIdx k) := by
+  conv => lhs; unfold disjointZ
+  have hst : Gen.disjointStep = (0, 1, 0, 1) := rfl
+  simp only [h, hst, if_true, Int.reduceEq, if_false, List.getElem?_eq_getElem hm, List.getElem?_eq_getElem hk,
+    List.getElem?_set_self hm, List.set_set, mergeGroupsZ]
+
 theorem disjointZ_toG (fuel : Nat) (gs : List (GroupZ K)) :
     (disjointZ fuel gs).map GroupZ.toG = disjoint fuel (gs.map GroupZ.toG) := by
   induction fuel generalizing gs with
@@ -17,16 +30,14 @@ theorem disjointZ_toG (fuel : Nat) (gs : List (GroupZ K)) :
   | succ fuel ih =>
     cases hfp : firstPair (gs.map GroupZ.toG) with
     | none =>
-      rw [disjoint_succ_none fuel _ hfp]
-      unfold disjointZ; simp only [hfp]
+      rw [disjoint_succ_none fuel _ hfp, disjointZ_succ_none fuel gs hfp]
     | some mk =>
       obtain ⟨m, k⟩ := mk
       obtain ⟨hmk, hk, _⟩ := firstPair_some _ m k hfp
       rw [List.length_map] at hk
       have hm : m < gs.length := by omega
       rw [disjoint_succ_some fuel _ m k (by rw [List.length_map]; exact hm) (by rw [List.length_map]; exact hk) hfp]
-      conv => lhs; unfold disjointZ
-      simp only [hfp, List.getElem?_eq_getElem hm, List.getElem?_eq_getElem hk]
+      rw [disjointZ_succ_some fuel gs m k hm hk hfp]
       rw [ih, ← List.eraseIdx_map, List.map_set, mergeGroupsZ_toG, List.getElem_map, List.getElem_map]
 
 /-- induction principle for `disjointZ` (same shape as `disjoint_induction`) -/
@@ -38,14 +49,13 @@ theorem disjointZ_induction (P : List (GroupZ K) → Prop)
   | zero => exact h0
   | succ fuel ih =>
     cases hfp : firstPair (gs.map GroupZ.toG) with
-    | none => unfold disjointZ; simp only [hfp]; exact h0
+    | none => rw [disjointZ_succ_none fuel gs hfp]; exact h0
     | some mk =>
       obtain ⟨m, k⟩ := mk
       obtain ⟨hmk, hk, _⟩ := firstPair_some _ m k hfp
       rw [List.length_map] at hk
       have hm : m < gs.length := by omega
-      unfold disjointZ
-      simp only [hfp, List.getElem?_eq_getElem hm, List.getElem?_eq_getElem hk]
+      rw [disjointZ_succ_some fuel gs m k hm hk hfp]
       exact ih _ (hstep gs m k hmk hk h0)
 
 /-- every member of every final group is one of the inputs -/
